@@ -272,7 +272,7 @@ def gen_cases(rng, tier, n):
             out.append(gen_E(rng))
         else:
             out.append(gen_D(rng))
-    return [add_faults(rng, c) for c in out]
+    return [add_cancels(rng, add_faults(rng, c)) for c in out]
 
 
 # ---- families of the extra phase (known-finding space)
@@ -412,6 +412,17 @@ def fixup(case):
         case = dict(case)
         case["ops"] = keep
     return case
+
+
+def add_cancels(rng, c, p=0.3):
+    """a share of the DB.Set/Delete calls run under a per-call context that the caller cancels right
+    after the call returned; the model ignores it: it must have no effect"""
+    if rng.random() > p:
+        return c
+    for o in c["ops"]:
+        if o["op"] in ("write", "del") and rng.random() < 0.4:
+            o["cancel"] = True
+    return c
 
 
 def add_faults(rng, c, p=0.25):
@@ -561,6 +572,8 @@ def histogram(case, r):
     ks = ["family=" + case.get("fam", "?"), "nodes=%d" % len(case["nodes"]), "T=%d" % eff_T(case)]
     for o in case["ops"]:
         ks.append("op=" + o["op"])
+        if o.get("cancel"):
+            ks.append("write_under_cancelled_per_call_context")
     if r.get("fired"):
         ks.append("ingress_commit_failures_hit=%d" % min(r["fired"], 5))
     outs = r.get("outs") or []
